@@ -503,6 +503,15 @@ func (fv *FV) step(st *State) (*State, []*State) {
 		es := fv.sortOf(elemType(x.Type()))
 		ss := fv.sortOf(x.Type())
 		ln := fv.vterm(st, x.Len)
+		// make panics for a negative length, for len > cap, and for a size the allocator cannot serve
+		// ("makeslice: len/cap out of range"): sizes derived from existing lengths are fine, an
+		// arbitrary integer is not
+		fv.maxLenDecl()
+		cp := ln
+		if x.Cap != nil {
+			cp = fv.vterm(st, x.Cap)
+		}
+		fv.oblige(st, "slice", "make", x.Pos(), Term{S: fmt.Sprintf("(and (<= 0 %s) (<= %s %s) (<= %s pv_maxlen))", ln.S, ln.S, cp.S, cp.S), Sort: SBool}, "make: 0 <= len <= cap <= what can be allocated")
 		z := fv.zeroOfSort(es, elemType(x.Type()))
 		fv.setReg(st, x, tv(Term{S: fmt.Sprintf("(%s_mk %s %s)", ss, fv.constArray(es, z), ln.S), Sort: ss, T: x.Type()}))
 	case *ssa.MapUpdate:
@@ -1138,4 +1147,10 @@ func (fv *FV) ownedCheck(st *State, x *ssa.Store) {
 		goal = tFalse
 	}
 	fv.oblige(st, "owned", aName, x.Pos(), goal, "local "+aName+" must only hold slices allocated by this activation (no shared backing array)")
+}
+
+// maxLenDecl: pv_maxlen bounds the length of every existing string, slice and map (they fit in memory);
+// an arbitrary integer is not below it.
+func (fv *FV) maxLenDecl() {
+	fv.decls.Add(1, "pv_maxlen", "(declare-const pv_maxlen Int)\n(assert (>= pv_maxlen 1099511627776))")
 }
